@@ -267,7 +267,7 @@ def op_to_gallina(op, extra):
     raise AssertionError(name)
 
 
-def run_history(ops_or_gen, length=None, rng=None, style=None, malformed=False):
+def run_history(ops_or_gen, length=None, rng=None, style=None, malformed=False, freeze_at=None):
     import xgi
     S = xgi.SimplicialComplex()
     if ops_or_gen is None:
@@ -276,6 +276,8 @@ def run_history(ops_or_gen, length=None, rng=None, style=None, malformed=False):
     n = length if ops_or_gen is None else len(ops_or_gen)
     prng = random.Random(12345)
     for i in range(n):
+        if freeze_at is not None and i == freeze_at:
+            S.freeze()
         op = gen_op(rng, S, nodes, eids, malformed) if ops_or_gen is None else ops_or_gen[i]
         extra, exc, nwarn = apply_op(S, op)
         ob = observe(S)
